@@ -194,6 +194,17 @@ def poly_fails(case):
     want = np.array([float(exact_partial(terms, xs, tuple(int(a) for a in alpha)) / math.prod(math.factorial(int(a)) for a in alpha)) for alpha in mi])
     if not close(np.ravel(T), want, 1e-8):
         return 'poly-tensor: extract_tensor (d=%d) differs from the exact partial derivatives / multi-index factorial' % d
+    # the point given as a column / row matrix: refused, or the same first-order partials (never derivatives at other points)
+    g_ = np.array([float(exact_partial(terms, xs, unit(i))) for i in range(N)])
+    for shp in ((N, 1), (1, N)):
+        try:
+            with np.errstate(all='ignore'):
+                Tv = np.asarray(UTPM.extract_tensor(N, f(UTPM.init_tensor(1, np.asarray(x, dtype=float).reshape(shp))), as_full_matrix=False), dtype=float)
+        except Exception:
+            continue
+        if Tv.size != N or not close(np.ravel(Tv), g_, 1e-8):
+            return 'poly-tensor-point-shape: init_tensor(1, point of shape %s) is accepted but the extracted first-order partials are %s, exact %s' % (
+                shp, np.ravel(Tv).tolist()[:6], g_.tolist())
     if case.get('sep'):
         # entry by entry: the pure partials of a separable polynomial come from one ray each (no cancellation)
         for k_, alpha in enumerate(mi):
@@ -402,12 +413,12 @@ def arrpoly_fails(case):
 def intpoint_case(rng, tier):
     N = rng.randint(1, 4)
     return {'op': 'intpoint', 'N': N, 'x': [rng.randint(-3, 3) for _ in range(N)], 'v': [rng.randint(-2, 2) / 2.0 for _ in range(N)],
-            'kind': rng.choice(['list', 'int64', 'int32', 'int16', 'uint8'])}
+            'kind': rng.choice(['list', 'int64', 'int32', 'int16', 'uint8', 'bool'])}
 
 
 def intpoint_fails(case):
     N = case['N']
-    xs = [abs(a) for a in case['x']] if case['kind'] == 'uint8' else case['x']
+    xs = [abs(a) for a in case['x']] if case['kind'] == 'uint8' else ([int(a % 2) for a in case['x']] if case['kind'] == 'bool' else case['x'])
     v = np.array(case['v'])
     xi = list(xs) if case['kind'] == 'list' else np.array(xs, dtype=case['kind'])
     xf = np.array(xs, dtype=float)
@@ -421,13 +432,15 @@ def intpoint_fails(case):
                 res[tag] = (np.asarray(UTPM.extract_jacobian(f(UTPM.init_jacobian(x))), dtype=float),
                             np.asarray(UTPM.extract_jac_vec(f(UTPM.init_jac_vec(x, v))), dtype=float),
                             np.asarray(UTPM.extract_hessian(N, f(UTPM.init_hessian(x))), dtype=float),
-                            np.asarray(UTPM.extract_hess_vec(N, f(UTPM.init_hess_vec(x, v))), dtype=float))
+                            np.asarray(UTPM.extract_hess_vec(N, f(UTPM.init_hess_vec(x, v))), dtype=float),
+                            np.asarray(UTPM.extract_tensor(N, f(UTPM.init_tensor(2, x))), dtype=float),
+                            np.asarray(UTPM.extract_tensor(N, f(UTPM.init_tensor(3, x)), as_full_matrix=False), dtype=float))
         except Exception as ex:
             if tag == 'float':
                 return None
             return 'intpoint-exception: a driver raised %s at the integer point %s given as %s' % (type(ex).__name__, xs, case['kind'])
-    for name, a, b in zip(('jacobian', 'jac_vec', 'hessian', 'hess_vec'), res['int'], res['float']):
-        if a.shape != b.shape or not close(a, b, 1e-12):
+    for name, a, b in zip(('jacobian', 'jac_vec', 'hessian', 'hess_vec', 'tensor(d=2)', 'tensor(d=3)'), res['int'], res['float']):
+        if a.shape != b.shape or not close(a, b, 1e-12 if not name.startswith('tensor') else 1e-9):
             return 'intpoint-%s: at the integer point %s given as %s the result differs from the one at the same point given as float (max diff %s)' % (
                 name, xs, case['kind'], maxdiff(a, b) if a.shape == b.shape else 'shape')
     return None
@@ -595,6 +608,10 @@ def run(ctx):
                 ctx.report(case, 'failure', f)
     for i in range(40 if ctx.tier == 'quick' else 400):
         case = intpoint_case(rng, ctx.tier)
+        if i < 6:
+            case['kind'] = ['list', 'int64', 'int32', 'int16', 'uint8', 'bool'][i]       # every kind on every run
+            if case['N'] < 2:
+                case['N'], case['x'], case['v'] = 3, [1, 0, 1], [0.5, -1.0, 1.5]
         ctx.evaluations += 1
         ctx.count('int-point=' + case['kind'])
         f = intpoint_fails(case)
